@@ -17,6 +17,7 @@ var profiles = map[string]Profile{
 	"imported":   {Name: "imported", Blocks: 16, MaxTx: 3, Oracle: true, Wrongness: 10, Faults: true, Imported: true, PeriodMax: 8, VotePeriods: []uint64{1, 1, 2}},
 	"replica":    {Name: "replica", Blocks: 24, MaxTx: 4, Oracle: true, Wrongness: 25, Jail: true, Probono: true, OracleFee: "0.5", Replica: true, MultiTx: true, PeriodMax: 12},
 	"roundtrip":  {Name: "roundtrip", Blocks: 20, MaxTx: 4, Oracle: true, Wrongness: 20, Jail: true, MultiTx: true, Roundtrip: true, PeriodMax: 14, Mint: true},
+	"isolation":  {Name: "isolation", Blocks: 24, MaxTx: 5, Oracle: true, Wrongness: 10, Isolation: true, PeriodMax: 10, Faults: false},
 	"periods":    {Name: "periods", Blocks: 20, MaxTx: 4, Oracle: true, Wrongness: 5, BigPeriods: true, Internal: true},
 }
 
@@ -34,6 +35,7 @@ type Stats struct {
 	Filled      int            `json:"setrecipients_events"`
 	Nontrivial  int            `json:"nontrivial"`
 	InvariantBroken int        `json:"invariant_broken"`
+	IsolationPairs int         `json:"histories_rerun_without_other_tenants"`
 	Roundtrips  int            `json:"export_import_round_trips"`
 	Replicas    int            `json:"histories_executed_twice"`
 	HashDiffs   int            `json:"app_hash_differences"`
@@ -106,6 +108,20 @@ func runChainCmd(args []string) {
 					}
 				}
 				st.Replicas++
+			}
+		}
+		if p.Isolation {
+			h2 := FilterForTenant(h, 1)
+			if e2, pi2 := NewExec(h2); pi2 == nil {
+				obs2 := e2.Run()
+				e.IsoDiff = CompareTenantView(h, obs, h2, obs2, 1)
+				st.IsolationPairs++
+				if len(e.IsoDiff) > 0 {
+					fmt.Printf("ISOLATION case=%d events=%v\n", i, e.IsoDiff)
+				}
+				if *dir != "" {
+					os.WriteFile(filepath.Join(*dir, fmt.Sprintf("hist_%d_without_others.json", i)), []byte(h2.JSON()), 0o644)
+				}
 			}
 		}
 		if p.Roundtrip && len(obs) > 0 && obs[len(obs)-1].Class == "ok" && obs[len(obs)-1].Kind == "end" {
